@@ -504,3 +504,42 @@ theorem reachable_applyOps (ops : List Op) {c : Cache} (h : Reachable c) : Reach
   | cons op ops ih => exact ih (reachable_applyOp h op)
 
 end CGV.Region
+
+namespace CGV.Region
+open CGV
+
+/-! ## ListRegionIDsInKeyRange ([start, end], end inclusive) -/
+
+theorem listRegionIDs_spec {fuel : Nat} {c c' : Cache} {pd : PD} {s e s0 : Bytes} {acc ls : List Region}
+    (h : listRegionIDs fuel c pd s e acc = (c', .ok ls)) (hcov : CovUpTo acc s0 [] s) :
+    ∀ k, Bytes.le s0 k = true → Bytes.le k e = true → ∃ l ∈ ls, l.contains k = true := by
+  induction fuel generalizing c s acc with
+  | zero => simp [listRegionIDs] at h
+  | succ n ih =>
+    simp only [listRegionIDs] at h
+    cases hl : locateKey c pd s with
+    | mk c1 res =>
+      rw [hl] at h
+      cases res with
+      | error x => simp at h
+      | ok l =>
+        simp only at h
+        have hc := locateKey_contains hl
+        by_cases hd : l.contains e = true
+        · simp only [hd, if_true, Prod.mk.injEq, Except.ok.injEq] at h
+          rw [← h.2]
+          intro k hk1 hk2
+          rcases le_total s k with hk | hk
+          · refine ⟨l, List.mem_reverse.mpr (List.mem_cons_self ..), ?_⟩
+            apply contains_of_le hc hk
+            unfold Region.contains at hd
+            simp only [Bool.and_eq_true, Bool.or_eq_true] at hd
+            rcases hd.2 with h' | h'
+            · exact Or.inr (lt_of_le_of_lt hk2 h')
+            · exact Or.inl (by simpa using h')
+          · obtain ⟨x, hx, hxc⟩ := hcov k hk1 hk (Or.inl rfl)
+            exact ⟨x, List.mem_reverse.mpr (List.mem_cons_of_mem _ hx), hxc⟩
+        · simp only [hd, Bool.false_eq_true, if_false] at h
+          exact ih h (covUpTo_step hcov hc)
+
+end CGV.Region
